@@ -1,4 +1,5 @@
 import Inkayaku.Proofs.SearchRoot
+import Inkayaku.Proofs.SearchCongr
 import Inkayaku.Model.FenBoard
 /-!
 # C09 — an interrupted search leaves the position alone and still answers once
@@ -19,7 +20,8 @@ Hypotheses.  `BoardLaws` (H1: `unmake ∘ make` restores the visible position of
 move; H2: a generated move passing `isValid` leads to a well-formed board) are the conclusions of the make/unmake and
 generator properties and are assumed here.  H3 (every board function the search uses depends on the visible position
 `WF.vis` only) is PROVED: `BoardCongr.genPseudo_congr`, `genNonQuiescent_congr`, `isValid_congr`, `wf_congr`,
-`make_congr`, `unmake_congr`, `evaluate_congr`, `hash_congr`, `pawnHash_congr`, `plyClock_congr`.
+`make_congr`, `unmake_congr`, `evaluate_congr`, `hash_congr`, `pawnHash_congr`, `plyClock_congr`, and lifted to the
+whole search: `Search.goCmd_congr` (states that differ in the scratch words only produce the same output).
 
 The position is compared through `WF.vis` (the board without the two scratch occupancy words `occupancy[NO_PIECE]`
 that `make`/`unmake` scribble on, which no function ever reads back into the position).
@@ -77,6 +79,20 @@ theorem session_preserves_board (L : BoardLaws) (xs : List GoStep) (s : St) (hwf
     vis (runGos s xs).board = vis s.board :=
   Search.session_preserves_board L xs s hwf
 
+
+/-- **the following `go` searches the same position as before**: after a first search (completed or interrupted in any
+way) a second `go` without a position command produces exactly the output it would produce if the board were reset to
+the board held before the first search, and it again leaves that position in place.  (`Search.goCmd_congr`: the search
+depends on the visible position only, so the scratch words left behind by the first search are irrelevant.) -/
+theorem next_go_searches_same_position (L : BoardLaws) (s : St) (g1 g2 : GoParams) (n1 n2 : Nat)
+    (hwf : wf s.board = true) :
+    (goCmd (goCmd s g1 n1) g2 n2).out = (goCmd { goCmd s g1 n1 with board := s.board } g2 n2).out ∧
+    vis (goCmd (goCmd s g1 n1) g2 n2).board = vis s.board := by
+  have h1 := Search.go_preserves_board L s g1 n1 hwf
+  have he : Eqv { goCmd s g1 n1 with board := s.board } (goCmd s g1 n1) := ⟨(goCmd s g1 n1).board, h1, rfl⟩
+  refine ⟨(goCmd_congr he g2 n2).1, ?_⟩
+  rw [Search.go_preserves_board L _ g2 n2 (by rw [BoardCongr.wf_congr h1]; exact hwf), h1]
+
 /-! ## the answer of an interrupted search -/
 
 /-- **exactly one `bestmove`**: whatever interrupts the search, the output of a `go` is a block of infos followed by
@@ -130,6 +146,8 @@ theorem bestmove_none_iff_no_completed_iteration (s : St) (g : GoParams) (maxIte
 #print axioms go_preserves_board
 #print axioms go_preserves_wf
 #print axioms session_preserves_board
+#print axioms next_go_searches_same_position
+#print axioms Search.goCmd_congr
 #print axioms go_one_bestmove
 #print axioms go_one_bestmove'
 #print axioms bestmove_from_last_completed_iteration
@@ -179,5 +197,8 @@ def threeGos : List GoStep :=
       go := { moveTime := some 2000000 }, maxIter := 4 } ]
 #guard vis (runGos Search.initial threeGos).board == vis Search.initial.board
 #guard (bestMoves (runGos Search.initial threeGos).out).length == 3
+-- after an interrupted search, a depth-2 search answers as from the untouched start position
+#guard bestMoves (goCmd { interrupted with out := [], pending := [], pollPeriod := 100000 } { depth := some 2 } 4).out
+  == bestMoves (goCmd { Search.initial with pv := interrupted.pv, killers := interrupted.killers } { depth := some 2 } 4).out
 
 end Inkayaku.C09
